@@ -157,4 +157,29 @@ def stepMsgV (validates : Bool) (st : AuthState) (h : Handler) (signer : Addr) (
 def stepMsg (st : AuthState) (h : Handler) (signer : Addr) (payload : Option Payload) : AuthState × Outcome :=
   stepMsgV (validatesSpelling h.name) st h signer payload
 
+/-- one message of a transaction: handler (by module and name), signer, payload -/
+structure TxMsg where
+  module : String
+  name : String
+  signer : Addr
+  payload : Option Payload
+  deriving Repr
+
+/-- a whole transaction, as baseapp runs it: the messages in order on a branch of the state; the first
+    refusal stops it and the branch is dropped — a failed transaction changes nothing.  `spec` maps a
+    message to the handler record the judge uses. -/
+def stepTxFrom (spec : String → String → Handler) (st0 : AuthState) : AuthState → List TxMsg → AuthState × Outcome
+  | st, [] => (st, .ok)
+  | st, m :: ms =>
+    match stepMsg st (spec m.module m.name) m.signer m.payload with
+    | (st', .ok) => stepTxFrom spec st0 st' ms
+    | (_, .err) => (st0, .err)
+
+def stepTx (spec : String → String → Handler) (st : AuthState) (ms : List TxMsg) : AuthState × Outcome :=
+  stepTxFrom spec st st ms
+
+/-- a simulation (gas estimation, `Simulate`): the same run, and the branch is dropped whatever happens -/
+def stepSim (spec : String → String → Handler) (st : AuthState) (ms : List TxMsg) : AuthState × Outcome :=
+  (st, (stepTx spec st ms).2)
+
 end Sif.Auth
